@@ -54,6 +54,18 @@ def rule_norm_path(ctx, r):
             np_.where)
     r.check(not bad_abs, con + "::absolute", "an absolute path is normalised ('/p/d/../x', '/p//x', '/p/./x' all become '/p/x')",
             f"absolute spellings are not normalised: {bad_abs[:3]} - '/wd/d/../x' no longer matches the output 'x' of a target in /wd", np_.where)
+    # "different files never connect": names that denote different files on a POSIX file system stay different (no case folding, no Unicode
+    # normalisation, no stripping of blanks) - checked on absolute spellings, which need no anchoring
+    pairs = [("/p/caf\u00e9.txt", "/p/cafe\u0301.txt", "composed vs decomposed accent"), ("/p/Data.txt", "/p/data.txt", "letter case"),
+             ("/p/x ", "/p/x", "trailing blank"), ("/p/a b", "/p/a_b", "blank vs underscore"), ("/p/\uff41", "/p/a", "full-width vs ASCII letter")]
+    merged = []
+    for a, b, what in pairs:
+        ga, gb = ev(np_, WD, a), ev(np_, WD, b)
+        if ga == gb or str(ga).startswith("<") or str(gb).startswith("<"):
+            merged.append((what, a, b, ga))
+    r.check(not merged, con + "::distinct-names", f"{len(pairs)} pairs of different file names stay different after normalisation",
+            f"_norm_path maps two different files to one key ({merged[0][0]}: {merged[0][1]!r} and {merged[0][2]!r} both become {str(merged[0][3])[:40]!r}): a target reading one of them "
+            "gets a dependency on the target producing the other (or both count as one output with two providers)" if merged else "", np_.where)
     got = ev(np_, WD, Obj("pathlike", __fspath__="x"))
     r.check(anchored_norm(got, WD, "x"), con + "::fspath", "path objects are converted with fspath() first",
             f"a path object is not converted before normalising (result {str(got)[:60]})", np_.where)
